@@ -1,4 +1,4 @@
-CONSTANTS MaxLen = 0  SubLen = 0  NoNsFirst = TRUE
+CONSTANTS MaxLen = 0  SubLen = 0  NoNsFirst = FALSE
 INIT InitT
 NEXT NextT
 INVARIANT Antisymmetric
